@@ -1,6 +1,6 @@
 (* Entry points of the correspondence check: one function per harness command, from the parsed
    command to the answer string.  Evaluated by the extracted `modelrun` and by vm_compute. *)
-From H264 Require Import Base.Prelude Base.Bits Model.Show Model.BitReader Model.RefNal Model.Rbsp.
+From H264 Require Import Base.Prelude Base.Bits Model.Show Model.BitReader Model.RefNal Model.Rbsp Model.Nal.
 Local Open Scope string_scope.
 
 Inductive source := SrcRaw (b : list byte) | SrcNal (c : bool) (chunks : list (list byte)).
@@ -126,3 +126,70 @@ Definition cmd_decode_nal (nal : list byte) : string :=
   | PANIC _ => "PANIC"
   | FUEL => "FUEL"
   end.
+
+(* ---- refnal: header accessors and the chunk reader, with clones ---- *)
+Fixpoint rdr_drain_loop (fuel : nat) (r : rdr) (acc : list byte) : list byte * string * rdr :=
+  match fuel with
+  | O => (acc, "FUEL", r)
+  | S fuel' =>
+    match rdr_fill_buf r with
+    | OK [] => (acc, "Eof", r)
+    | OK b => match rdr_consume r (length b) with
+              | OK r' => rdr_drain_loop fuel' r' (acc ++ b)
+              | _ => (acc, "PANIC", r)
+              end
+    | ERR k => (acc, show_iokind k, r)
+    | _ => (acc, "PANIC", r)
+    end
+  end.
+Definition rdr_drain (r : rdr) (acc : list byte) := rdr_drain_loop (length (rest r) + 3) r acc.
+
+Definition show_drained (r : rdr) : string :=
+  let '(a1, e1, r1) := rdr_drain r [] in
+  let '(a2, e2, r2) := rdr_drain r1 a1 in
+  let '(a3, e3, r3) := rdr_drain r2 a2 in
+  let rd := match rdr_read r3 1 with
+            | OK (b, _) => show_nat (length b)
+            | ERR k => show_iokind k
+            | _ => "PANIC"
+            end in
+  "d:" ++ hex a3 ++ "!" ++ e1 ++ "." ++ e2 ++ "." ++ e3 ++ "!" ++ rd.
+
+Fixpoint run_refnal_ops (ops : list byteop) (stack : list rdr) : list string :=
+  match stack with
+  | [] => []
+  | r :: below =>
+    match ops with
+    | [] => map show_drained stack
+    | op :: more =>
+      match op with
+      | BoFill => show_ioout (fun b => "f:" ++ hex b) (rdr_fill_buf r) :: run_refnal_ops more stack
+      | BoClone => "K" :: run_refnal_ops more (r :: stack)
+      | BoRead n => match rdr_read r n with
+                    | OK (b, r') => ("r:" ++ hex b) :: run_refnal_ops more (r' :: below)
+                    | ERR k => ("E:" ++ show_iokind k) :: run_refnal_ops more stack
+                    | _ => ["PANIC"]
+                    end
+      | BoConsume k => match rdr_consume r k with
+                       | OK r' => "c" :: run_refnal_ops more (r' :: below)
+                       | _ => ["PANIC"]
+                       end
+      | BoEnd => ["?"]
+      end
+    end
+  end.
+
+Definition show_header (s : source) : string :=
+  let c := match s with SrcNal c _ => c | SrcRaw _ => true end in
+  let first := match rdr_remaining (rdr_of_source s) with b :: _ => Some b | [] => None end in
+  match first with
+  | None => "PANIC"
+  | Some b =>
+    match nal_header_new b with
+    | Some h => "h:" ++ show_N (nal_ref_idc h) ++ ":" ++ show_N (nal_unit_type_id h) ++ ":" ++ show_bit c
+    | None => "h:err:" ++ show_bit c
+    end
+  end.
+
+Definition cmd_refnal (s : source) (ops : list byteop) : string :=
+  join " " (show_header s :: run_refnal_ops ops [rdr_of_source s]).
